@@ -363,6 +363,7 @@ func Corpus(o Options) []Case {
 		form("generic io constraint", "[R io.Reader]", 1, "\tM(r R) (R, error)\n", []string{"M"}, [][]string{{"io.Reader"}, {"*strings.Reader"}}, "")
 		form("generic lower-case param", "[t any]", 1, "\tM(a t) t\n", []string{"M"}, simpleT, "")
 		form("generic embeds generic", "[T any]", 1, "\tLIG[T]\n\tM(a T)\n", []string{"Get", "M"}, simpleT, "")
+		form("generic embeds instantiated generic with a concrete argument", "[T any]", 1, "\tLIG[dep.T]\n\tdep.IG[[]T]\n\tPut(k string, v T)\n", []string{"DepG", "Get", "Put"}, simpleT, "")
 		form("generic three params", "[A any, B comparable, C ~int]", 3, "\tM(a A, b B, c C) map[B]A\n", []string{"M"}, [][]string{{"int", "string", "int"}, {"error", "src.LT", "src.MyInt"}}, "")
 		form("generic param shadows package", "[dep any]", 1, "\tM(a dep) dep\n", []string{"M"}, simpleT, "")
 		// named type whose underlying type is an instantiated generic interface
